@@ -1036,7 +1036,9 @@ def splice_fn(fs, stats, canary=False, stub=False):
             continue
         kw, bo, bc = loops[n - 1]
         inserts.append((code[body_open + bo].start, "\n" + ltext.rstrip() + "\n", "loop %d" % n))
-        if canary:
+        # with loop_isolation(false) the loop body is part of the function's own query, where the function-start canary
+        # has already been assumed: a loop canary there cannot fire and is not generated
+        if canary and "loop_isolation(false)" not in fs.opts.get("attrs", ""):
             inserts.append((code[body_open + bo].end, "\nproof { assert(false); } // CANARY loop %d\n" % n, "canary"))
     for n in range(1, len(loops) + 1):
         pass
